@@ -295,9 +295,20 @@ fn spawn_async_ao_list_in_task<'a, SE: extensions::ShellExtensions>(
     let join_handle = tokio::spawn(async move {
         #[cfg(feature = "verif-hooks")]
         crate::verif::pause("job.task_start");
-        cloned_ao_list
+        // The job runs in its own (sub)shell: an error that ends it is reported by the job and
+        // becomes its exit status, as for `( ... )`; it must not surface as an error of
+        // whoever later waits for the job (which would also cut that wait short).
+        match cloned_ao_list
             .execute(&mut cloned_shell, &cloned_params)
             .await
+        {
+            Ok(result) => Ok(result),
+            Err(err) => {
+                let mut stderr = cloned_params.stderr(&cloned_shell);
+                let _ = cloned_shell.display_error(&mut stderr, &err);
+                Ok(err.into_result(&cloned_shell))
+            }
+        }
     });
 
     shell.jobs_mut().add_as_current(jobs::Job::new(
